@@ -58,6 +58,7 @@ Definition o_unl (p : ptr) : list Z := [3; Z.of_nat p].
 Definition o_hgt : list Z := [4].
 Definition o_cnt : list Z := [5].
 Definition o_sync (t : nat) : list Z := [6; Z.of_nat t].
+Definition o_ret (t : nat) : list Z := [7; Z.of_nat t].     (* cursor of the thread's retired array (hp::details::retired_array::current_) *)
 
 Definition upd2 {A} (f : ptr -> nat -> A) (p : ptr) (l : nat) (x : A) : ptr -> nat -> A :=
   fun p' l' => if Nat.eqb p' p && Nat.eqb l' l then x else f p' l'.
@@ -93,6 +94,9 @@ Definition a_fas_cnt : G -> G * V * list ev :=
 Definition a_guard_st (t slot : nat) : G -> G * V * list ev := fun g => (g, VU, [EvAcc KSt (o_guard t slot) true]).
 Definition a_guard_ld (t slot : nat) : G -> G * V * list ev := fun g => (g, VU, [EvAcc KLd (o_guard t slot) true]).
 Definition a_sync (t : nat) : G -> G * V * list ev := fun g => (g, VU, [EvAcc KFaa (o_sync t) true]).
+(** gc::retire: retired_.push = load and store of the array cursor (the array never fills up in a case) *)
+Definition a_ret_ld (t : nat) : G -> G * V * list ev := fun g => (g, VU, [EvAcc KLd (o_ret t) true]).
+Definition a_ret_st (t : nat) : G -> G * V * list ev := fun g => (g, VU, [EvAcc KSt (o_ret t) true]).
 
 Definition vp (v : V) : mptr := match v with VP p => p | VC _ p => p | _ => (null, false) end.
 Definition vz (v : V) : Z := match v with VZ z => z | _ => 0 end.
@@ -140,6 +144,18 @@ with g_protect_again {R} (fuel : nat) (s : TL) (slot : nat) (p : ptr) (l : nat) 
             if mp_eqb cur (vp v2) then k (Some (vp v2))
             else g_protect_again f s slot p l (vp v2) k)))
   end.
+(** GuardArray::protect: `do { assign( i, f( pRet = load )); } while ( pRet != load );` — every round starts with a fresh load *)
+Fixpoint ga_protect {R} (fuel : nat) (s : TL) (slot : nat) (p : ptr) (l : nat) (k : option mptr -> prog R) : prog R :=
+  match fuel with
+  | O => k None
+  | S f =>
+      Act (a_ld_next p l) (fun v1 =>
+        Act (a_guard_st (tid s) slot) (fun _ =>
+          Act (a_sync (tid s)) (fun _ =>
+            Act (a_ld_next p l) (fun v2 =>
+              if mp_eqb (vp v1) (vp v2) then k (Some (vp v1))
+              else ga_protect f s slot p l k))))
+  end.
 Fixpoint g_free_all {R} (s : TL) (slots : list nat) (k : TL -> prog R) : prog R :=
   match slots with
   | [] => k s
@@ -158,6 +174,9 @@ Inductive res (A : Type) := Ok (a : A) | Fuel.
 Arguments Ok {A} a.
 Arguments Fuel {A}.
 
+Definition retire {R} (s : TL) (k : prog R) : prog R :=
+  Act (a_ret_ld (tid s)) (fun _ => Act (a_ret_st (tid s)) (fun _ => k)).
+
 (** help_remove( nLevel, pPred, pCur ) *)
 Definition help_remove {R} (fuel : nat) (s : TL) (l : nat) (pred cur : ptr) (k : res TL -> prog R) : prog R :=
   Act (a_ld_unl cur) (fun u =>
@@ -170,7 +189,9 @@ Definition help_remove {R} (fuel : nat) (s : TL) (l : nat) (pred cur : ptr) (k :
             if snd succ then
               Act (a_cas_next pred l (cur, false) (fst succ, false)) (fun c =>
                 if vok c then
-                  Act (a_fas_unl cur 1) (fun _ => g_clear s1 hp (k (Ok (free1 hp s1))))
+                  Act (a_fas_unl cur 1) (fun u1 =>
+                    if vz u1 =? 1 then retire s1 (g_clear s1 hp (k (Ok (free1 hp s1))))
+                    else g_clear s1 hp (k (Ok (free1 hp s1))))
                 else g_clear s1 hp (k (Ok (free1 hp s1))))
             else g_clear s1 hp (k (Ok (free1 hp s1)))
         end)
@@ -186,7 +207,7 @@ Fixpoint fp_level {R} (fuel : nat) (s : TL) (key : Z) (stop : bool) (own : ptr) 
   match fuel with
   | O => kf
   | S f =>
-      g_protect fuel s (gslot ps (2 * lvl + 1)) pred lvl (fun r =>
+      ga_protect fuel s (gslot ps (2 * lvl + 1)) pred lvl (fun r =>
         match r with
         | None => kf
         | Some cur =>
@@ -248,7 +269,7 @@ Fixpoint fmin_levels {R} (fuel : nat) (n : nat) (s : TL) (ps : pos)
   | O => k s ps
   | S lvl =>
       g_assign s (gslot ps (2 * lvl))
-        (g_protect fuel s (gslot ps (2 * lvl + 1)) head lvl (fun r =>
+        (ga_protect fuel s (gslot ps (2 * lvl + 1)) head lvl (fun r =>
            match r with
            | None => kf
            | Some cur =>
@@ -276,7 +297,7 @@ Fixpoint fmax_level {R} (fuel : nat) (s : TL) (lvl : nat) (pred : ptr) (ps : pos
   match fuel with
   | O => kf
   | S f =>
-      g_protect fuel s (gslot ps (2 * lvl + 1)) pred lvl (fun r =>
+      ga_protect fuel s (gslot ps (2 * lvl + 1)) pred lvl (fun r =>
         match r with
         | None => kf
         | Some cur =>
@@ -385,7 +406,7 @@ Fixpoint tr_unlink {R} (fuel : nat) (s : TL) (key : Z) (del : ptr) (n : nat) (ps
   (k : TL -> prog R) (kf : prog R) {struct n} : prog R :=
   (* for ( nLevel = height - 1; nLevel >= 0; --nLevel ), n = nLevel + 1 *)
   match n with
-  | O => k s                                   (* fast erase succeeded: gc::retire *)
+  | O => retire s (k s)                        (* fast erase succeeded: gc::retire *)
   | S l =>
       Act (a_ld_next del l) (fun vs =>
         Act (a_cas_next (pprev ps l) l (del, false) (fst (vp vs), false)) (fun c =>
@@ -485,7 +506,7 @@ Fixpoint ff_level {R} (fuel : nat) (s : TL) (key : Z) (g0 g1 : nat) (lvl : nat) 
       else
         let c := cmpk (fst cur) key in
         if c <? 0 then
-          g_copy s g0 g1 (g_protect fuel s g1 (fst cur) lvl (fun r =>
+          g_copy s g0 g1 (ga_protect fuel s g1 (fst cur) lvl (fun r =>
             match r with None => kf | Some nx => ff_level f s key g0 g1 lvl (fst cur) nx k kf end))
         else if c =? 0 then
           Act (a_ld_next (fst cur) 0) (fun v => if snd (vp v) then k FAbort pred else k FFound pred)
@@ -497,7 +518,7 @@ Fixpoint ff_levels {R} (fuel : nat) (n : nat) (s : TL) (key : Z) (g0 g1 : nat) (
   match n with
   | O => k FNotFound
   | S lvl =>
-      g_protect fuel s g1 pred lvl (fun r =>
+      ga_protect fuel s g1 pred lvl (fun r =>
         match r with
         | None => kf
         | Some cur =>
@@ -557,12 +578,24 @@ Fixpoint extract_loop {R} (fuel : nat) (mx : bool) (s : TL) (gp : option nat) (p
 
 Definition op_extract {R} (fuel : nat) (mx : bool) (s : TL) (cont : TL -> prog R) : prog R :=
   let (slots, s1) := allocn (2 * MAXH) s in
+  (* the client: `if ( gp ) b = gp->key;` = two loads of the guard slot, then ~guarded_ptr releases the guard;
+     a guard allocated by a failed attempt of an empty result is only released *)
   let release (s' : TL) (gp : option nat) (k : TL -> prog R) : prog R :=
     match gp with Some g => g_clear s' g (k (free1 g s')) | None => k s' end in
+  (* empty result: extract_min_ returns guarded_ptr() and its local gp (which may own a guard) is destroyed *)
+  let release_empty (s' : TL) (gp : option nat) (k : TL -> prog R) : prog R :=
+    match gp with Some g => g_clear s' g (k (free1 g s')) | None => k s' end in
+  let read_release (s' : TL) (gp : option nat) (k : TL -> prog R) : prog R :=
+    match gp with
+    | Some g => Act (a_guard_ld (tid s') g) (fun _ => Act (a_guard_ld (tid s') g) (fun _ => g_clear s' g (k (free1 g s'))))
+    | None => k s'
+    end in
   extract_loop fuel mx s1 None (empty_pos slots)
     (fun s2 gp r =>
-       g_free_all s2 slots (fun s3 =>
-         release s3 gp (fun s4 => match r with Some del => finish s4 1 (key_of del) cont | None => finish s4 0 0 cont end)))
+       match r with
+       | Some del => g_free_all s2 slots (fun s3 => read_release s3 gp (fun s4 => finish s4 1 (key_of del) cont))
+       | None => release_empty s2 gp (fun s3 => g_free_all s3 slots (fun s4 => finish s4 0 0 cont))
+       end)
     (fun s2 gp => g_free_all s2 slots (fun s3 => release s3 gp (fun s4 => out_of_fuel s4 cont))).
 
 (** *** client programs *)
